@@ -43,172 +43,126 @@ Proof.
   unfold round_pt, exact_pt. f_equal; now apply ot_round_i16_exact_iff.
 Qed.
 
-Lemma outline_ok_points : forall cs, outline_okb cs = true -> glyf_points cs = exact_points cs.
+Lemma coords_fit_points : forall cs, coords_fitb cs = true -> glyf_points cs = exact_points cs.
 Proof.
-  intros cs H. unfold outline_okb in H. apply andb_true_iff in H. destruct H as [H _].
-  unfold glyf_points, exact_points. induction cs as [|c cs IH]; [reflexivity|].
+  intros cs H. unfold coords_fitb in H. unfold glyf_points, exact_points.
+  induction cs as [|c cs IH]; [reflexivity|].
   cbn [forallb] in H. apply andb_true_iff in H. destruct H as [Hc H].
-  apply andb_true_iff in Hc. destruct Hc as [_ Hc].
   cbn [flat_map]. rewrite (IH H). f_equal.
   apply map_ext_in. intros p Hp. apply round_pt_exact.
   apply (proj1 (emit_order_in _ _)) in Hp. rewrite forallb_forall in Hc. now apply Hc.
 Qed.
 
-Lemma outline_ok_lens : forall cs, outline_okb cs = true ->
-  Forall (fun n => 1 <= n) (map (fun c => zlen c) cs) /\ zsum (map (fun c => zlen c) cs) <= 65535.
+Lemma glyf_points_len : forall cs, zlen (glyf_points cs) = zsum (map (fun c => zlen c) cs).
 Proof.
-  intros cs H. unfold outline_okb in H. apply andb_true_iff in H. destruct H as [H S].
-  split; [|lia]. clear S. induction cs as [|c cs IH]; [constructor|].
-  cbn [forallb] in H. apply andb_true_iff in H. destruct H as [Hc H].
-  apply andb_true_iff in Hc. destruct Hc as [Hc _]. cbn [map]. constructor; [lia|now apply IH].
+  induction cs as [|c cs IH]; [reflexivity|].
+  unfold glyf_points in *. cbn [flat_map map]. change (zsum (zlen c :: map (fun c0 => zlen c0) cs))
+    with (zlen c + zsum (map (fun c0 => zlen c0) cs)).
+  rewrite <- IH. unfold zlen. rewrite app_length, map_length, emit_order_length. lia.
+Qed.
+
+Lemma no_empty_lens : forall cs, has_empty_contour cs = false ->
+  Forall (fun n => 1 <= n) (map (fun c => zlen c) cs).
+Proof.
+  unfold has_empty_contour. induction cs as [|c cs IH]; intro H; [constructor|].
+  cbn [existsb] in H. apply orb_false_iff in H. destruct H as [Hc H]. cbn [map].
+  constructor; [unfold zlen in *; lia|now apply IH].
 Qed.
 
 (* ---- the glyf entry of an outline ----------------------------------------------------- *)
 Lemma simple_glyph_cons : forall p c cs,
   simple_glyph p (c :: cs) =
-  (if 32767 <=? zlen (c :: cs) then Panic else
-   ends <- end_pts p 0 (map (fun c => zlen c) (c :: cs)) ;;
-   dx <- deltas p 0 (map fst (glyf_points (c :: cs))) ;;
-   dy <- deltas p 0 (map snd (glyf_points (c :: cs))) ;;
-   Emit (GSimple {| so_ends := ends; so_dx := dx; so_dy := dy; so_bbox := bbox_of (glyf_points (c :: cs)) |})).
+  (let l := c :: cs in
+   let pts := glyf_points l in
+   if negb (coords_fitb l) then Reject
+   else if negb (diffs_fitb 0 (map fst pts) && diffs_fitb 0 (map snd pts)) then Reject
+   else if has_empty_contour l then Panic
+   else if 65535 <? zlen pts then Reject
+   else if 32767 <=? zlen l then Panic
+   else
+     ends <- end_pts p 0 (map (fun c => zlen c) l) ;;
+     dx <- deltas p 0 (map fst pts) ;;
+     dy <- deltas p 0 (map snd pts) ;;
+     Emit (GSimple {| so_ends := ends; so_dx := dx; so_dy := dy; so_bbox := bbox_of pts |})).
 Proof. reflexivity. Qed.
 
-Lemma end_pts_debug_fit : forall lens cur e, end_pts Debug cur lens = Emit e -> ends_fitb cur lens = true.
+(* the entry every profile writes once the checks of GlyphWork have passed *)
+Definition canonical_simple (cs : list contour) : glyf_out :=
+  let pts := glyf_points cs in
+  GSimple {| so_ends := cum_ends 0 (map (fun c => zlen c) cs);
+             so_dx := diff_list 0 (map fst pts); so_dy := diff_list 0 (map snd pts);
+             so_bbox := bbox_of pts |}.
+
+Lemma outline_checks_split : forall cs, outline_checksb cs = true ->
+  coords_fitb cs = true /\ diffs_fitb 0 (map fst (glyf_points cs)) = true /\
+  diffs_fitb 0 (map snd (glyf_points cs)) = true /\
+  has_empty_contour cs = false /\ zlen (glyf_points cs) <= 65535.
 Proof.
-  induction lens as [|n t IH]; intros cur e He; cbn in *; [reflexivity|].
-  apply bind_emit in He. destruct He as [e1 [E1 He]].
-  apply bind_emit in He. destruct He as [r [E2 He]].
-  apply arith_debug_emit in E1. destruct E1 as [_ E1]. rewrite E1. cbn. eapply IH; eauto.
+  intros cs H. unfold outline_checksb in H. rewrite !andb_true_iff in H.
+  destruct H as [[[[H1 H2] H3] H4] H5]. apply negb_true_iff in H4. repeat split; try assumption. lia.
 Qed.
 
-(* what a debug build writes, when it writes anything *)
-Lemma simple_glyph_debug : forall cs o, simple_glyph Debug cs = Emit o ->
-  match cs with
-  | [] => o = GEmpty
-  | _ => exists so, o = GSimple so /\ decode_simple so = glyf_points cs /\
-                    so_bbox so = bbox_of (glyf_points cs) /\
-                    end_pts Debug 0 (map (fun c => zlen c) cs) = Emit (so_ends so) /\
-                    outline_arithb cs = true
-  end.
+(* closed form of simple_glyph: the same in both profiles *)
+Lemma simple_glyph_eq : forall p cs, cs <> [] ->
+  simple_glyph p cs =
+  if outline_checksb cs
+  then (if 32767 <=? zlen cs then Panic else Emit (canonical_simple cs))
+  else (if coords_fitb cs && diffs_fitb 0 (map fst (glyf_points cs)) && diffs_fitb 0 (map snd (glyf_points cs))
+           && has_empty_contour cs
+        then Panic else Reject).
 Proof.
-  intros cs o H. destruct cs as [|c cs].
-  { cbn in H. inversion H. reflexivity. }
-  set (l := c :: cs) in *.
-  assert (simple_glyph Debug l =
-       (if 32767 <=? zlen l then Panic else
-        ends <- end_pts Debug 0 (map (fun c => zlen c) l) ;;
-        dx <- deltas Debug 0 (map fst (glyf_points l)) ;;
-        dy <- deltas Debug 0 (map snd (glyf_points l)) ;;
-        Emit (GSimple {| so_ends := ends; so_dx := dx; so_dy := dy; so_bbox := bbox_of (glyf_points l) |}))) as U
-      by reflexivity.
-  rewrite U in H. clear U.
-  destruct (32767 <=? zlen l); [discriminate|].
-  apply bind_emit in H. destruct H as [ends [He H]].
-  apply bind_emit in H. destruct H as [dx [Hx H]].
-  apply bind_emit in H. destruct H as [dy [Hy H]]. inversion H; subst o.
-  destruct (deltas_debug_exact _ _ _ Hx) as [Ux [Fx _]].
-  destruct (deltas_debug_exact _ _ _ Hy) as [Uy [Fy _]].
-  eexists. split; [reflexivity|]. unfold decode_simple. cbn [so_ends so_dx so_dy so_bbox].
-  rewrite Ux, Uy, combine_fst_snd. repeat split; try assumption.
-  unfold outline_arithb. rewrite Fx, Fy, !andb_true_r. eapply end_pts_debug_fit; eauto.
+  intros p cs Hne. destruct cs as [|c cs]; [congruence|]. rewrite simple_glyph_cons. cbv zeta.
+  set (l := c :: cs) in *. unfold outline_checksb.
+  destruct (coords_fitb l) eqn:C; cbn [negb andb]; [|reflexivity].
+  destruct (diffs_fitb 0 (map fst (glyf_points l))) eqn:Dx; cbn [negb andb]; [|reflexivity].
+  destruct (diffs_fitb 0 (map snd (glyf_points l))) eqn:Dy; cbn [negb andb]; [|reflexivity].
+  destruct (has_empty_contour l) eqn:E; cbn [negb andb]; [reflexivity|].
+  destruct (65535 <? zlen (glyf_points l)) eqn:N.
+  - assert ((zlen (glyf_points l) <=? 65535) = false) as N' by lia. rewrite N'. reflexivity.
+  - assert ((zlen (glyf_points l) <=? 65535) = true) as N' by lia. rewrite N'.
+    destruct (32767 <=? zlen l); [reflexivity|].
+    rewrite (end_pts_exact p _ 0).
+    + cbn [bind]. rewrite (deltas_fit_eq p _ 0 Dx). cbn [bind]. rewrite (deltas_fit_eq p _ 0 Dy). reflexivity.
+    + lia.
+    + now apply no_empty_lens.
+    + rewrite <- glyf_points_len. lia.
 Qed.
 
-Lemma end_pts_fit : forall p lens cur, ends_fitb cur lens = true ->
-  end_pts p cur lens = end_pts Debug cur lens /\ emitted (end_pts Debug cur lens) = true.
+Lemma simple_glyph_profile_indep : forall cs, simple_glyph Debug cs = simple_glyph Release cs.
 Proof.
-  intros p. induction lens as [|n t IH]; intros cur H; cbn in *; [auto|].
-  apply andb_true_iff in H. destruct H as [H1 H2]. unfold sub_u16.
-  rewrite !(arith_fits _ _ _ _ H1). cbn. destruct (IH _ H2) as [E1 E2]. rewrite E1.
-  destruct (end_pts Debug (cur + n) t); cbn in *; auto; discriminate.
+  intros [|c cs]; [reflexivity|]. rewrite !simple_glyph_eq by discriminate. reflexivity.
 Qed.
 
-Lemma end_pts_release_total : forall lens cur, exists e, end_pts Release cur lens = Emit e.
+Lemma canonical_faithful : forall cs, cs <> [] -> coords_fitb cs = true -> outline_faithful cs (canonical_simple cs).
 Proof.
-  induction lens as [|n t IH]; intros cur; cbn; [eauto|].
-  destruct (arith_release_total fits_u16 wrap_u16 (wrap_u16 (cur + n) - 1)) as [e He].
-  unfold sub_u16. rewrite He. cbn. destruct (IH (cur + n)) as [r Hr]. rewrite Hr. cbn. eauto.
+  intros cs Hne C. destruct cs as [|c cs]; [congruence|]. cbn [outline_faithful].
+  eexists. split; [reflexivity|]. unfold decode_simple. cbn [so_dx so_dy so_ends so_bbox].
+  rewrite !undeltas_diff_list, combine_fst_snd, (coords_fit_points _ C). auto.
 Qed.
 
-(* a source whose casts all fit: the debug build writes the faithful entry or nothing *)
-Lemma outline_debug_faithful : forall cs o,
-  outline_okb cs = true -> simple_glyph Debug cs = Emit o -> outline_faithful cs o.
+(* whatever any profile writes for an outline is faithful: never clamped, never wrapped *)
+Lemma simple_glyph_emit_faithful : forall p cs o, simple_glyph p cs = Emit o -> outline_faithful cs o.
 Proof.
-  intros cs o Hok H. pose proof (simple_glyph_debug cs o H) as D.
-  destruct cs as [|c cs]; [exact D|]. cbn [outline_faithful].
-  destruct D as [so [E [Hd [Hb [He _]]]]]. exists so.
-  rewrite <- (outline_ok_points _ Hok). repeat split; try assumption.
-  destruct (outline_ok_lens _ Hok) as [L S].
-  rewrite (end_pts_exact Debug _ 0) in He by (try assumption; lia). now inversion He.
+  intros p cs o H. destruct cs as [|c cs]; [cbn in *; now inversion H|].
+  rewrite simple_glyph_eq in H by discriminate.
+  destruct (outline_checksb (c :: cs)) eqn:K.
+  - destruct (32767 <=? zlen (c :: cs)); [discriminate|]. inversion H; subst o.
+    apply canonical_faithful; [discriminate|]. now destruct (outline_checks_split _ K).
+  - destruct (_ && _); discriminate.
 Qed.
 
-(* ... and every profile writes it when, in addition, the differences and counts fit *)
-Lemma outline_fits_faithful : forall p cs,
-  outline_okb cs = true -> zlen cs < 32767 -> outline_arithb cs = true ->
-  exists o, simple_glyph p cs = Emit o /\ simple_glyph Debug cs = Emit o /\ outline_faithful cs o.
+(* an outline that glyf cannot hold is refused by both profiles *)
+Lemma simple_glyph_unfit_rejected : forall p cs, cs <> [] -> outline_checksb cs = false -> emitted (simple_glyph p cs) = false.
 Proof.
-  intros p cs Hok Hn Ha.
-  assert (forall p', exists o, simple_glyph p' cs = Emit o /\
-            (forall p'', simple_glyph p'' cs = Emit o)) as K.
-  { intro p'. destruct cs as [|c cs]; [exists GEmpty; split; [reflexivity|intro; reflexivity]|].
-    set (l := c :: cs) in *.
-    unfold outline_arithb in Ha. apply andb_true_iff in Ha. destruct Ha as [Ha Fy].
-    apply andb_true_iff in Ha. destruct Ha as [Fe Fx].
-    destruct (outline_ok_lens _ Hok) as [L S].
-    assert (forall q, simple_glyph q l =
-       (if 32767 <=? zlen l then Panic else
-        ends <- end_pts q 0 (map (fun c => zlen c) l) ;;
-        dx <- deltas q 0 (map fst (glyf_points l)) ;;
-        dy <- deltas q 0 (map snd (glyf_points l)) ;;
-        Emit (GSimple {| so_ends := ends; so_dx := dx; so_dy := dy; so_bbox := bbox_of (glyf_points l) |}))) as U
-      by (intro q; reflexivity).
-    assert ((32767 <=? zlen l) = false) as Hn' by lia.
-    destruct (deltas_fit Debug _ 0 Fx) as [dx [Ex _]].
-    destruct (deltas_fit Debug _ 0 Fy) as [dy [Ey _]].
-    exists (GSimple {| so_ends := cum_ends 0 (map (fun c => zlen c) l); so_dx := dx; so_dy := dy;
-                       so_bbox := bbox_of (glyf_points l) |}).
-    assert (forall q, simple_glyph q l = Emit (GSimple {| so_ends := cum_ends 0 (map (fun c => zlen c) l); so_dx := dx; so_dy := dy;
-                       so_bbox := bbox_of (glyf_points l) |})) as All.
-    { intro q. rewrite U, Hn'. rewrite (end_pts_exact q _ 0) by (try assumption; lia). cbn [bind].
-      destruct (proj2 (deltas_agree_iff _ 0) Fx). destruct (proj2 (deltas_agree_iff _ 0) Fy).
-      destruct q.
-      - rewrite Ex. cbn [bind]. rewrite Ey. reflexivity.
-      - rewrite <- (proj2 (deltas_agree_iff _ 0) Fx), Ex. cbn [bind].
-        rewrite <- (proj2 (deltas_agree_iff _ 0) Fy), Ey. reflexivity. }
-    split; [apply All|exact All]. }
-  destruct (K p) as [o [E All]]. exists o. split; [exact E|]. split; [apply All|].
-  apply outline_debug_faithful; [exact Hok|apply All].
+  intros p cs Hne K. rewrite simple_glyph_eq by assumption. rewrite K. destruct (_ && _); reflexivity.
 Qed.
 
-Lemma refines_simple_glyph : forall cs, refines (simple_glyph Debug cs) (simple_glyph Release cs).
+(* ... and one it can hold (and write-fonts can write: fewer than 32767 contours) is emitted *)
+Lemma simple_glyph_fit_emitted : forall p cs, cs <> [] -> outline_checksb cs = true -> zlen cs < 32767 ->
+  simple_glyph p cs = Emit (canonical_simple cs).
 Proof.
-  intros [|c cs]; [apply refines_refl|]. rewrite !simple_glyph_cons.
-  destruct (32767 <=? zlen (c :: cs)); [apply refines_refl|].
-  apply refines_bind; [apply refines_end_pts|]. intro.
-  apply refines_bind; [apply refines_deltas|]. intro.
-  apply refines_bind; [apply refines_deltas|]. intro. apply refines_refl.
-Qed.
-
-(* debug and release write the same entry exactly when no narrow arithmetic overflows *)
-Lemma simple_glyph_agree_iff : forall cs, cs <> [] -> zlen cs < 32767 ->
-  (simple_glyph Debug cs = simple_glyph Release cs <-> outline_arithb cs = true).
-Proof.
-  intros cs Hne Hn. split.
-  - intro E.
-    assert (exists o, simple_glyph Release cs = Emit o) as [o R].
-    { destruct cs as [|c cs]; [congruence|]. rewrite simple_glyph_cons.
-      assert ((32767 <=? zlen (c :: cs)) = false) as Hn' by lia. rewrite Hn'.
-      destruct (end_pts_release_total (map (fun c0 => zlen c0) (c :: cs)) 0) as [e He]. rewrite He. cbn [bind].
-      destruct (deltas_release_total (map fst (glyf_points (c :: cs))) 0) as [dx [Hx _]]. rewrite Hx. cbn [bind].
-      destruct (deltas_release_total (map snd (glyf_points (c :: cs))) 0) as [dy [Hy _]]. rewrite Hy. cbn [bind].
-      eauto. }
-    rewrite R in E. pose proof (simple_glyph_debug cs o E) as D.
-    destruct cs as [|c cs]; [congruence|]. now destruct D as [so [_ [_ [_ [_ A]]]]].
-  - intro A. destruct cs as [|c cs]; [congruence|].
-    pose proof A as A'. unfold outline_arithb in A. apply andb_true_iff in A. destruct A as [A Fy].
-    apply andb_true_iff in A. destruct A as [Fe Fx]. rewrite !simple_glyph_cons.
-    destruct (32767 <=? zlen (c :: cs)); [reflexivity|].
-    destruct (end_pts_fit Release _ _ Fe) as [E1 _]. rewrite E1.
-    rewrite <- (proj2 (deltas_agree_iff _ 0) Fx), <- (proj2 (deltas_agree_iff _ 0) Fy). reflexivity.
+  intros p cs Hne K N. rewrite simple_glyph_eq by assumption. rewrite K.
+  assert ((32767 <=? zlen cs) = false) as N' by lia. now rewrite N'.
 Qed.
 
 (* ---- components ------------------------------------------------------------------------- *)
@@ -265,37 +219,56 @@ Proof.
 Qed.
 
 (* ---- one glyph ------------------------------------------------------------------------------ *)
-Lemma build_glyph_debug_faithful : forall glyphs g o,
-  glyph_castsb glyphs g = true -> build_glyph Debug glyphs g = Emit o -> glyph_faithful glyphs g o.
+Lemma build_glyph_composite : forall p glyphs a h ct comps,
+  build_glyph p glyphs (SrcComposite a h (ct :: comps)) =
+  (let l := ct :: comps in
+   if decomposes l then simple_glyph p (decompose glyphs l)
+   else if forallb offset_fitsb l then Emit (emit_composite glyphs l) else Reject).
+Proof. reflexivity. Qed.
+
+Lemma kept_components_faithful : forall l,
+  decomposes l = false -> forallb offset_fitsb l = true ->
+  Forall2 comp_faithful l (map (fun ct => emit_component (fst ct) (snd ct)) l).
 Proof.
-  intros glyphs g o Hc H. destruct g as [a h cs|a h comps].
-  - cbn in *. now apply outline_debug_faithful.
+  intros l D Hoff.
+  assert (forall ct, In ct l -> overflows_2x2 (snd ct) = false) as K
+    by (intros; eapply decomposes_false; eauto).
+  rewrite forallb_forall in Hoff. clear D.
+  induction l as [|ct l IH]; cbn [map]; constructor.
+  - destruct ct as [gid t]. apply emit_component_faithful; [apply (K (gid, t)); now left|apply Hoff; now left].
+  - apply IH; intros; [apply Hoff|apply K]; now right.
+Qed.
+
+(* whatever any profile writes for a glyph is faithful, given only that the box of a
+   kept composite fits (the one remaining saturating step at glyph level) *)
+Lemma build_glyph_emit_faithful : forall p glyphs g o,
+  glyph_knownb glyphs g = true -> build_glyph p glyphs g = Emit o -> glyph_faithful glyphs g o.
+Proof.
+  intros p glyphs g o Hc H. destruct g as [a h cs|a h comps].
+  - cbn in *. eapply simple_glyph_emit_faithful; eauto.
   - destruct comps as [|ct0 comps]; [cbn in *; now inversion H|].
+    rewrite build_glyph_composite in H. cbv zeta in H.
     set (l := ct0 :: comps) in *.
-    assert (build_glyph Debug glyphs (SrcComposite a h l) =
-            if decomposes l then simple_glyph Debug (decompose glyphs l) else Emit (emit_composite glyphs l)) as U by reflexivity.
     assert (glyph_faithful glyphs (SrcComposite a h l) o =
             if decomposes l then outline_faithful (decompose glyphs l) o
             else exists outs b, o = GComposite outs b /\ Forall2 comp_faithful l outs /\
                                 b = composite_bbox_exact (parts_of glyphs l)) as V by reflexivity.
-    rewrite V. rewrite U in H. unfold glyph_castsb in Hc. fold l in Hc.
+    rewrite V. unfold glyph_knownb in Hc. fold l in Hc.
     destruct (decomposes l) eqn:D.
-    + now apply outline_debug_faithful.
-    + apply andb_true_iff in Hc. destruct Hc as [Hoff Hbb]. inversion H; subst o.
+    + eapply simple_glyph_emit_faithful; eauto.
+    + destruct (forallb offset_fitsb l) eqn:Hoff; [|discriminate]. inversion H; subst o.
       unfold emit_composite. eexists. eexists. split; [reflexivity|]. split.
-      * clear -D Hoff. assert (forall ct, In ct l -> overflows_2x2 (snd ct) = false) as K
-          by (intros; eapply decomposes_false; eauto).
-        rewrite forallb_forall in Hoff. clear D.
-        induction l as [|ct l IH]; cbn [map]; constructor.
-        -- destruct ct as [gid t]. apply emit_component_faithful; [apply (K (gid, t)); now left|apply Hoff; now left].
-        -- apply IH; intros; [apply Hoff|apply K]; now right.
-      * apply composite_bbox_fits. exact Hbb.
+      * now apply kept_components_faithful.
+      * apply composite_bbox_fits. exact Hc.
+Qed.
+
+Lemma build_glyph_profile_indep : forall glyphs g, build_glyph Debug glyphs g = build_glyph Release glyphs g.
+Proof.
+  intros glyphs [a h cs|a h comps].
+  - apply simple_glyph_profile_indep.
+  - destruct comps as [|ct comps]; [reflexivity|]. rewrite !build_glyph_composite. cbv zeta.
+    destruct (decomposes (ct :: comps)); [apply simple_glyph_profile_indep|reflexivity].
 Qed.
 
 Lemma refines_build_glyph : forall glyphs g, refines (build_glyph Debug glyphs g) (build_glyph Release glyphs g).
-Proof.
-  intros glyphs [a h cs|a h comps]; cbn.
-  - apply refines_simple_glyph.
-  - destruct comps; [apply refines_refl|].
-    destruct (existsb _ _); [apply refines_simple_glyph|apply refines_refl].
-Qed.
+Proof. intros. right. apply build_glyph_profile_indep. Qed.
